@@ -504,5 +504,36 @@ def r15_12(ctx):
     return r
 
 
+def r15_13(ctx):
+    """RFC 8285: the identifiers 0 (padding) and 15 (stop) are special in the ONE-byte form only; in the two-byte form
+    the ID is a full octet and 15 is an ordinary identifier. get_extension therefore may not judge the requested `id`
+    before it knows which form the block has: no branch on `id` ahead of the profile test (a guard such as
+    `if id == 0 || id == 15 { return None }` at the top makes a two-byte element with ID 15 unreadable)."""
+    r = RuleResult("R15.13", "K1", "get_extension applies the one-byte reserved IDs only inside the one-byte branch")
+    fn = "rtp::RtpHeader::get_extension"
+    b = ctx.body(fn)
+    r.scope.append(fn)
+    prof = []
+    idsw = []
+    for sb in range(len(b.blocks)):
+        if sb in b.cleanup or b.blocks[sb]["t"]["k"] != "switch":
+            continue
+        term, outs = b.switch_info(sb)
+        if mir.has_field(term, "profile") and mir.has(term, lambda x: mir.int_value(x) in (0xBEDE, 0x1000)):
+            prof.append(sb)
+        elif mir.has(term, lambda x: x == ("arg", "id")) and not mir.has(term, lambda x: x[0] == "index"):
+            idsw.append(sb)        # a test on the requested id that does not involve a byte of the block
+    r.need("profile tests in get_extension", len(prof), 1)
+    first = min(prof)
+    early = [sb for sb in idsw if first in b.reachable([sb], cut_edges=b.back_edges())]
+    if early:
+        r.violate(fn, "ext:id-before-form", b.where(early[0]),
+                  "the requested id is tested (%s) before the header-extension form is known: a rule of the one-byte form (IDs 0 / 15 "
+                  "reserved) is applied to two-byte blocks, where those are ordinary identifiers" % mir.show(b.switch_info(early[0])[0], 60))
+    else:
+        r.ok({"profile test": b.where(first), "id tests ahead of it": 0})
+    return r
+
+
 def run(ctx):
-    return [r15_1(ctx), r15_2(ctx), r15_3(ctx), r15_4(ctx), r15_5(ctx), r15_6(ctx), r15_7(ctx), r15_8(ctx), r15_9(ctx), r15_10(ctx), r15_11(ctx), r15_12(ctx)]
+    return [r15_1(ctx), r15_2(ctx), r15_3(ctx), r15_4(ctx), r15_5(ctx), r15_6(ctx), r15_7(ctx), r15_8(ctx), r15_9(ctx), r15_10(ctx), r15_11(ctx), r15_12(ctx), r15_13(ctx)]
